@@ -133,6 +133,15 @@ func errorPaths(c *Ctx, r *Repo, rule string, p *packages.Package, fd *ast.FuncD
 					}
 				}
 			}
+			if _, ok := allowed[key]; !ok {
+				// an entry "callee:<resolved callee>" admits the error of that one library call wherever it is made
+				// and whatever it is applied to (a loop variable, an element of a table, a helper's parameter)
+				for k := range allowed {
+					if cal, isC := strings.CutPrefix(k, "callee:"); isC && strings.Contains(seen.Expr, "<"+cal+">(") && strings.HasSuffix(seen.Expr, " == nil") && !strings.Contains(seen.Expr, "#") {
+						key = k
+					}
+				}
+			}
 			if why, ok := allowed[key]; ok {
 				c.OK(rule, key, r.Pos(seen.Pos), "allowed fallback: "+why)
 				continue
